@@ -55,6 +55,16 @@ PROPS = {
         rule="methods GET/POST/PUT/DELETE/OPTIONS x bodies (empty, 1 byte, text, all 256 byte values, 100 KiB) x header multisets drawn from a pool with repeated names, mixed case, every hop-by-hop name, Authorization, conditional and Range headers x rule flavours (copy target, retry_rule that matches or not, four hostheader modes, request_headers set/delete/add) x fault scripts (k connection failures then success with k up to the retry budget + 1, 4xx then fallback, copy failures); non-trivial = at least one delivery; distinct = distinct case encodings",
         classify=kind_of,
     ),
+    "C20": dict(
+        family="copy",
+        proof_files=["Proofs/C20Proofs.v", "Proofs/RouteProofs.v", "Proofs/C01Proofs.v"],
+        trusted_base=ROUTE_TB,
+        assumptions=ASSUME_COMMON + ["latency added by the copy request is observed, not specified",
+                                     "a request the firewall (C04) must deny on an internal copy route is answered 407: the one stated exception to non-interference"],
+        rule="random rulesets of 2-7 rules interleaving copy and proxy rules (copy rules with hostheader modes and internal flags) x requests x main-side scripts (ok, one connection failure then ok, 503); each case is run once without the copy rules and once per copy-side behaviour (200, connection refused, 5xx with headers, k refusals then ok, 302, occasionally a 1 MiB body) and the client responses compared; non-trivial = a copy rule was contacted in at least one variant; distinct = distinct case encodings",
+        classify=lambda row: "copy-variants",
+        nontrivial=lambda row: True,
+    ),
     "C04": dict(
         family="route",
         proof_files=["Proofs/C04Proofs.v", "Proofs/HeaderFacts.v", "Spec/SpecC04.v", "Proofs/RouteProofs.v", "Proofs/ForwardProofs.v"],
